@@ -793,6 +793,23 @@ func Now() time.Time {
 	return time.Unix(0, s.now)
 }
 
+// Sleep mirrors time.Sleep: simulated time passes and other tasks may run.
+func Sleep(d time.Duration) {
+	if S == nil {
+		return
+	}
+	if d > 0 {
+		S.now += int64(d)
+		S.elapsed += int64(d)
+	}
+	// a sleeper lets every other runnable task go first (as a poller does), so
+	// that a sleep-and-retry loop cannot starve the task it waits for
+	t := S.cur
+	t.polling = true
+	defer func() { t.polling = false }()
+	S.schedPoint()
+}
+
 // Advance moves the simulated clock forward.
 //
 //go:norace
